@@ -150,6 +150,12 @@ JudgeFeed(r, line) ==
   /\ (On("C01") /\ r.panic) =>
         PrintT(<<"MISMATCH", ToJson([kind |-> "panic", prop |-> "C01", line |-> line, op |-> r.ev.op, p |-> <<>>,
                                      pr |-> FALSE, src |-> r.ev.port, bad |-> <<"panic">>, info |-> [msg |-> r.msg]])>>)
+  \* C01: not wedged - after the universal reset word (CAN BEL BEL) the probe character is delivered,
+  \* whatever happened before (the specification is in its ground state then, desynchronised or not)
+  /\ (On("C01") /\ ~r.panic /\ r.ev.p = <<1>> /\ TextOf(obs) # TextOf(exp))
+        => PrintT(<<"MISMATCH", ToJson([kind |-> "wedged", prop |-> "C01", line |-> line, op |-> r.ev.op, p |-> <<>>,
+                                        pr |-> FALSE, src |-> r.ev.port, bad |-> <<"probe">>,
+                                        info |-> [exp |-> TextOf(exp), obs |-> TextOf(obs)]])>>)
   \* C03: the ordered listener events are those of the documented grammar
   /\ (On("C03") /\ live /\ ~bytes /\ obs \notin cands) => ReportFeed("C03", line, r, exp, obs)
   \* C11: the text delivered is the streaming decoding of the bytes
